@@ -73,13 +73,24 @@ var opOf = map[string]string{
 func genCaseB(t *rapid.T) *CaseB {
 	focus := []string{"Sign", "Sign beacon attestation", "Sign beacon proposal", "Access account", "Lock account", "Unlock account", "Lock wallet", "Unlock wallet"}
 	c := &CaseB{Config: vkit.GenPermConfig(t, []string{"alice", "bob"}, bWallets, bAccounts, focus)}
-	// make sure "alice" has at least one broad positive entry somewhere so that allowed requests exist
-	if rapid.Bool().Draw(t, "broad") {
+	// shapes that make allowed requests and single-operation refusals frequent
+	switch k := rapid.IntRange(0, 9).Draw(t, "shape"); {
+	case k < 2:
 		pos := rapid.IntRange(0, len(c.Config.Clients["alice"])).Draw(t, "broad_pos")
 		e := &vkit.PermEntry{Wallet: &vkit.Pat{Op: "star", Subs: []*vkit.Pat{{Op: "dot"}}}, Ops: []string{"All"}}
 		es := c.Config.Clients["alice"]
 		es = append(es[:pos:pos], append([]*vkit.PermEntry{e}, es[pos:]...)...)
 		c.Config.Clients["alice"] = es
+	case k < 6:
+		// everything but one operation: a service that authorises with the wrong operation name shows
+		x := rapid.SampledFrom(focus).Draw(t, "denied_op")
+		e := &vkit.PermEntry{Wallet: &vkit.Pat{Op: "star", Subs: []*vkit.Pat{{Op: "dot"}}}, Ops: []string{"~" + x, "All"}}
+		c.Config.Clients["alice"] = append([]*vkit.PermEntry{e}, c.Config.Clients["alice"]...)
+	case k < 8:
+		// exactly one operation
+		x := rapid.SampledFrom(focus).Draw(t, "only_op")
+		e := &vkit.PermEntry{Wallet: &vkit.Pat{Op: "star", Subs: []*vkit.Pat{{Op: "dot"}}}, Ops: []string{x, "None"}}
+		c.Config.Clients["alice"] = append([]*vkit.PermEntry{e}, c.Config.Clients["alice"]...)
 	}
 	n := rapid.IntRange(1, 8).Draw(t, "nreqs")
 	nAcc := len(bWallets) * len(bAccounts)
